@@ -46,6 +46,15 @@ CLAIMS = {
  "C20": dict(technique="Lean 4 `decide` obligations over metadata regenerated from the source on every run + theorems for bounds and mean year length per configuration + year-block correspondence over -6000..12000",
              text="Machine-checked proof over regenerated facts: names distinct, lookup returns the entry registered under the name, run-time map keys = registered names, 12 month names and abbreviations (all `decide` over Gen/CalMeta.lean); for each arithmetic configuration every reported month length lies within the advertised bounds for ALL years, and the advertised average year length is within 0.01 day of the true mean over any span >= 1000 years (closed forms, omega); regenerated month tables equal the model's. Tie: extractor requires source constants = running registry; `byname meta` dump model vs runtime; GetMonthLen by year blocks over the property's whole year range (complete in both tiers).",
              design="7 (C20)", note="Trusted: Lean kernel + standard axioms; extractor + correspondence check. hijri month-table mode reports 28 and 31 at the table seams: open known findings (the model reproduces both by kernel evaluation)."),
+ "C08": dict(technique="Lean 4 exactness theorems at the Decode+Check level over the regenerated rule registry (all integer field values at once; range lists via C05's canonical form) + grammar-generated correspondence with the generator's acc/rej/bad expectation evaluated on the real code",
+             text="Machine-checked proof: for dayTime, date, cycleLen, cycleDays/cycleWeeks a value written with ANY integer fields decodes (or is a decode error for negative days), is accepted iff every field is in range, and then carries exactly the numbers written; a range list that parses as closed ranges decodes to the strictly increasing list of exactly the covered integers and is accepted iff all are in range; unknown type => error. PARTIAL: start/end, ex_dates, dayTimeRange, weekDay, duration, weekMonth are covered by the component theorems (date, h:m:s, int list, decimal) and the correspondence, not by a composed Decode-level theorem; `accepted_is_format` is not proved. Tie: 19 types x grammar values incl. every 256k+r alias class, malformed texts, unknown types.",
+             design="7 (C08)", note=TXT_NOTE),
+ "C09": dict(technique="Lean 4 totality theorems (decode never panics, check of a decoded value never panics, from decoder/checker type agreement) + `decide` obligations over the regenerated registry and tables (go/types static types) + exhaustive short-string correspondence under recover()",
+             text="Machine-checked proof: `decode t s != panic` for every type name and string (every Go slice expression of parseInterval is an explicit panic branch of the model, shown unreachable); `decode t s = ok v -> check t v != panic` because each decoder's value type is the type its checker asserts — `decide` over the static Go types extracted with go/types on every run; tables closed, no self conflict, no conflict with a requirement, orders and names distinct, every type usable by witness. Tie: every string of length <=4/5/6 over the 12-symbol alphabet against one rule type per decoder, grammar mutations for all 19 types, unknown names; the table clause is also evaluated on the running registry incl. all 2^19 subsets.",
+             design="7 (C09)", note=TXT_NOTE + " Coverage-guided fuzzing named in the quantifier is not run (support only)."),
+ "C14": dict(technique="Lean 4 round-trip and faithfulness theorems for Date/HMS/DHMS/DateHMS text forms (any year, all integer field values) + exhaustive 86,400-time and short-string correspondence",
+             text="Machine-checked proof: String then Parse is the identity for dates (any year incl. negative and >4 digits), times, days+time (any uint day count) and date-times with uint8 fields; `h:m:s`, `y/m/d` and `days h:m:s` written with ANY integer fields parse, pass the validity check iff every field is in range, and then carry exactly the numbers written. Totality: the models have no panic branch (see level_note); durations are compared on plain decimals. Tie: all 86,400 times, month x day x 50 years, sampled days+time and date-times, every string of length <=4/5/6 over the 10-symbol alphabet for 8 parsers, faithfulness stream with written fields in [-70000,70000].",
+             design="7 (C14)", note=TXT_NOTE),
 }
 
 PENDING = {}
